@@ -513,7 +513,15 @@ pub fn case(tape: &[u32]) -> CaseOutcome {
     } else {
         gen_free(&mut gt)
     };
-    let printed = print_random(&prog, &mut t);
+    let mut printed = print_random(&prog, &mut t);
+    // a third of the texts end with their last token: no blank, line break or comment after it
+    if t.chance(1, 3) {
+        let plain_end = !printed.text.trim_end().lines().last().map(|l| l.contains(';')).unwrap_or(false);
+        if plain_end {
+            let n = printed.text.trim_end().len();
+            printed.text.truncate(n);
+        }
+    }
     let text = &printed.text;
     let d = |extra: serde_json::Value| json!({"dsl": text, "checked": checked, "more": extra});
     #[allow(deprecated)]
